@@ -273,8 +273,7 @@ def run(tier, seed):
     obs = job.run()
     mul_lens = [1, 2] if tier == "quick" else [1, 2, 3, 4]
     obs += hist_job("C13", mul_lens, MUL, unwind=14, timeout=1200, harness_timeout=600).run()
-    if tier == "thorough":
-        obs += hist_const_job("C13", [1, 3], NAMES, unwind=8).run()
+    obs += hist_const_job("C13", [1, 3], NAMES, unwind=8).run()           # const-generic copy: both tiers (seconds)
     obs += structural("C13")
     obs += views_rs(tier)
     obs += views_bits_corpus()
